@@ -65,6 +65,22 @@ Theorem replay_record_id : forall sh h, wf_shape sh -> chain sh (fresh sh) 0 h -
 Proof. exact DeltaFacts.replay_record_id_gen. Qed.
 Print Assumptions replay_record_id.
 
+(* The same through the SPARSE absolute-time recording (one (time, delta) entry per tick; replay
+   with an explicit recordable_id): replaying from any start time not later than the first tick
+   re-creates every tick at its own absolute time, with the same delta and the same value.
+   ([sreplay_run] is the sparse branch of replay_impl::eval: entries older than the current time
+   are skipped, entries of the current time applied, the node re-arms for the next entry.) *)
+Theorem sparse_replay_record_id : forall sh h rs, wf_shape sh -> chain sh (fresh sh) 0 h ->
+  match h with (t, _) :: _ => rs <= t | [] => True end ->
+  let ents := srec_hist sh h [] in
+  let run := sreplay_run sh (S (length ents)) rs ents (fresh sh) in
+  ents = entries_of sh h /\
+  map fst run = map fst h /\
+  map (fun to => capture sh (snd to)) run = map snd ents /\
+  map (fun to => commit sh (snd to)) run = map (fun tl => commit sh (snd tl)) h.
+Proof. exact DeltaFacts.sparse_replay_record_id_gen. Qed.
+Print Assumptions sparse_replay_record_id.
+
 (* For sets the hypothesis [tick] is not an assumption on the history at all: EVERY non-empty
    sequence of add / remove / touch / clear calls on a good state is a [tick] — or it is exactly
    an empty tick on an already valid set (finding B below), which leaves the set as it was. *)
@@ -87,7 +103,7 @@ Proof. vm_compute. reflexivity. Qed.
 
 (* The side conditions of [tick] cannot be dropped: the unconditional statements are false of
    the faithful model, and of the implementation (each witness is replayed on the real code; see
-   docs/notes-delta.md, findings A-D). *)
+   docs/notes-delta.md, findings A-C; D was a defect of the tree, now repaired). *)
 
 (* A: a bundle {set, scalar} whose scalar field ticks while the set field never ticked:
    apply_delta validates the set field. *)
@@ -109,8 +125,14 @@ Theorem apply_capture_refuted_unset_child : exists sh pre ops, good sh pre /\
 Proof. exact DeltaFacts.apply_capture_unconditional_refuted_unset_child. Qed.
 Print Assumptions apply_capture_refuted_unset_child.
 
-(* D: child changed, key erased and re-inserted in one cycle: the change is lost. *)
-Theorem apply_capture_refuted_reinserted_key : exists sh pre ops, good sh pre /\
-  let live := run_ops sh ops pre in veq sh live (apply sh pre (capture sh live)) = false.
-Proof. exact DeltaFacts.apply_capture_unconditional_refuted_reinserted_key. Qed.
-Print Assumptions apply_capture_refuted_reinserted_key.
+(* D (repaired in the tree): under the insert_key rule BEFORE the repair — a resurrected slot was
+   not marked modified again — child changed, key erased and re-inserted in one cycle lost the
+   change.  Under the repaired rule ([dict_at], restore_modified_on_resurrection) the same history
+   is an ordinary [tick]: see [reinserted_key_now_ticks]. *)
+Theorem apply_capture_old_rule_refuted_reinserted_key : exists sh pre ops, good sh pre /\
+  let live := run_ops_old sh ops pre in veq sh live (apply sh pre (capture sh live)) = false.
+Proof. exact DeltaFacts.apply_capture_old_rule_refuted_reinserted_key. Qed.
+Print Assumptions apply_capture_old_rule_refuted_reinserted_key.
+
+Example reinserted_key_now_ticks : chain ex3_sh (fresh ex3_sh) 0 [(1, ex3_l1); (2, ex3_l2)].
+Proof. exact DeltaFacts.ex3_chain. Qed.
